@@ -75,6 +75,21 @@ def con(x: C, y: C) -> C:
     return x
 def pair(x: T, y: T) -> List[T]:
     return [x, y]
+def f_kwx(x: int, **kwargs: str) -> int:
+    return x
+class Event:
+    pass
+class Click(Event):
+    pass
+E = TypeVar("E", bound=Event)
+def register(handler: Callable[[E], None]) -> List[E]:
+    return []
+def both(h1: Callable[[E], None], h2: Callable[[E], None]) -> List[E]:
+    return []
+def on_click(e: Click) -> None:
+    pass
+def on_event(e: Event) -> None:
+    pass
 '''
 
 LITS = ["1", "True", "'s'", "1.5", "None", "[1]", "['a']", "(1, 's')", "(1,)", "[]"]
@@ -132,6 +147,11 @@ def calls():
     # generic parameters are re-checked against the solved type variable (several upper bounds, union-typed parameters)
     out += [("apply2(1, takes_int, takes_int)", True), ("apply2(1, takes_int, takes_str)", False), ("apply2('s', takes_str, takes_str)", True), ("apply2('s', takes_str, takes_int)", False),
             ("either(ints, 1)", None), ("either(ints, 'a')", False), ("either(1, 2)", None)]   # None: a generic call may be rejected when no solution is found (the statement allows `or an error is reported`)
+    # explicit keywords together with a **mapping of unknown keys: both feed the callee's **kwargs
+    out += [("f_kw(**dstr)", True), ("f_kw(**dint)", False), ("f_kw(p='a', **dstr)", True), ("f_kw(p=1, **dstr)", False), ("f_kw(p='a', **dint)", False),
+            ("f_kwx(1, extra='s', **dstr)", True), ("f_kwx(1, extra=1, **dstr)", False), ("f_kwx(1, extra=1)", False), ("f_kwx('s', **dstr)", False)]
+    # a type variable that only receives upper bounds (callback parameters): the narrowest bound is the solution
+    out += [("register(on_click)", True), ("register(on_event)", True), ("both(on_click, on_event)", True), ("both(on_event, on_click)", True), ("both(on_click, on_click)", True)]
     for a in ["[1]", "['a']", "[1.5, 2.5]"]:
         out.append((f"first({a})", True))
     for a, b in itertools.product(["1", "'s'", "1.5", "True"], repeat=2):
@@ -177,7 +197,7 @@ def in_revealed(o, txt):
 def search():
     from replay.checkcode import check_code
     cs = calls()
-    lines = PRELUDE.strip("\n").split("\n") + ["def use(ints: List[int], strs: List[str]) -> None:"]
+    lines = PRELUDE.strip("\n").split("\n") + ["def use(ints: List[int], strs: List[str], dstr: Dict[str, str], dint: Dict[str, int]) -> None:"]
     base = len(lines)
     for src, _ in cs:
         lines.append(f"    reveal_type({src})")
@@ -189,7 +209,7 @@ def search():
         elif fl["code"].name == "reveal_type":
             m = re.search(r"Revealed type is '(.*)'", fl["description"], re.S)
             rev[fl["lineno"]] = m.group(1) if m else fl["description"]
-    env = {"ints": [1, 2], "strs": ["a"]}
+    env = {"ints": [1, 2], "strs": ["a"], "dstr": {"k": "v"}, "dint": {"k": 1}}
     exec(PRELUDE, env)
     for i, (src, ok) in enumerate(cs):
         ln = base + 1 + i
